@@ -57,6 +57,11 @@ def ensure_facts(repo=REPO):
     try:
         ok = all(os.path.exists(os.path.join(d, f + ".json")) for f in REQUIRED) and \
             os.path.exists(os.path.join(d, "DONE"))
+        if ok:
+            try:
+                os.utime(d, None)       # mark as recently used so that a concurrent build does not evict it
+            except OSError:
+                pass
         built = False
         t0 = time.time()
         if not ok:
@@ -64,7 +69,7 @@ def ensure_facts(repo=REPO):
             olds = [os.path.join(CACHE, o) for o in os.listdir(CACHE)
                     if os.path.isdir(os.path.join(CACHE, o)) and o != key]
             olds.sort(key=lambda p: os.path.getmtime(p), reverse=True)
-            for p in olds[5:]:
+            for p in olds[int(os.environ.get("TDQ_CACHE_KEEP", "12")):]:
                 shutil.rmtree(p, ignore_errors=True)
             tmp = d + ".tmp"
             shutil.rmtree(tmp, ignore_errors=True)
